@@ -174,16 +174,16 @@ Proof.
            apply Nat.ltb_lt in Hi. now rewrite Hi.
         -- rewrite nth_error_app2 by (rewrite positions_length; exact Hi).
            rewrite positions_length.
+           assert (i < S h * w) as Hlt' by (apply div_small_iff in Hlt; lia).
            assert (i / w = h) as Hq.
-           { apply div_small_iff in Hlt; [|lia].
-             assert (~ i / w < h) by (rewrite div_small_iff; lia). lia. }
+           { symmetry. apply Nat.div_unique with (r := i - h * w); lia. }
            rewrite Hq.
-           assert (i - h * w < w) as Hc by (apply div_small_iff in Hlt; lia).
+           assert (i - h * w < w) as Hc by lia.
            rewrite nth_error_map, nth_error_nth' with (d := 0) by (rewrite seq_length; exact Hc).
            cbn. rewrite seq_nth by exact Hc. reflexivity.
-      * rewrite nth_error_None.2; [reflexivity|].
-        rewrite app_length, positions_length, map_length, seq_length.
-        assert (~ i < S h * w) by (rewrite <- div_small_iff; lia). lia.
+      * assert (~ i < S h * w) by (rewrite <- div_small_iff; lia).
+        apply nth_error_None.
+        rewrite app_length, positions_length, map_length, seq_length. lia.
 Qed.
 
 Lemma nth_pos_positions sh i :
@@ -196,6 +196,16 @@ Proof.
   revert i. induction l as [|a l IH]; intros [|i] E; cbn in *; try discriminate.
   - now injection E as ->.
   - now apply IH.
+Qed.
+
+Lemma NoDup_map_in {X Y} (f : X -> Y) (l : list X) :
+  (forall x y, In x l -> In y l -> f x = f y -> x = y) -> NoDup l -> NoDup (map f l).
+Proof.
+  induction l as [|a l IH]; intros Hinj Hnd; cbn; [constructor|].
+  inversion Hnd as [|? ? Hn Hnd']; subst. constructor.
+  - intros Hin. apply in_map_iff in Hin as (y & E & Hy).
+    assert (y = a) by (apply Hinj; [now right|now left|exact E]). subst. contradiction.
+  - apply IH; auto. intros x y Hx Hy. apply Hinj; now right.
 Qed.
 
 (* ---------- iteration ---------- *)
@@ -239,13 +249,164 @@ Section WithData.
       + apply nth_error_None in E. now rewrite skipn_all2.
   Qed.
 
-  (* iteration yields exactly height*width items, the window's cells in row-major order *)
+  Lemma flat_some (l : list (nat * nat)) :
+    (forall p, In p l -> cell p < length data) ->
+    map Some (flat_map (fun p => match nth_error data (cell p) with Some x => [x] | None => [] end) l)
+    = map (fun p => nth_error data (cell p)) l.
+  Proof.
+    induction l as [|p l IH]; intros Hb; [reflexivity|]. cbn [flat_map map].
+    rewrite map_app, IH by (intros q Hq; apply Hb; now right).
+    destruct (nth_error data (cell p)) eqn:E; [reflexivity|].
+    apply nth_error_None in E. specialize (Hb p (or_introl eq_refl)). lia.
+  Qed.
+
+  (* iteration yields exactly height*width items: the window's cells in row-major order *)
   Theorem iter_spec :
     map Some (iter sh data) =
     map (fun p => nth_error data (cell p)) (positions (sh_height sh) (sh_width sh)).
   Proof.
-    unfold iter. rewrite iter_from_spec by lia. cbn [skipn].
-    induction (positions (sh_height sh) (sh_width sh)) as [|p ps IH'] eqn:Eq in |- * at 1.
-    all: try reflexivity.
-  Abort.
+    unfold iter. rewrite iter_from_spec by lia. cbn [skipn]. apply flat_some, cell_in_bounds.
+  Qed.
+
+  Corollary iter_length : length (iter sh data) = sh_height sh * sh_width sh.
+  Proof.
+    rewrite <- (map_length Some), iter_spec, map_length. apply positions_length.
+  Qed.
+
+  (* mutable iteration hands out exactly the window's offsets, row-major *)
+  Lemma mut_offsets_from_spec : forall fuel i,
+    sh_height sh * sh_width sh < fuel + i ->
+    mut_offsets_from fuel i sh (length data) =
+    map cell (skipn i (positions (sh_height sh) (sh_width sh))).
+  Proof.
+    induction fuel as [|fuel IH]; intros i Hf.
+    - rewrite skipn_all2 by (rewrite positions_length; lia). reflexivity.
+    - cbn [mut_offsets_from]. rewrite nth_pos_positions.
+      destruct (nth_error (positions (sh_height sh) (sh_width sh)) i) as [[r c]|] eqn:E.
+      + rewrite (skipn_nth_error _ _ _ E). cbn [map].
+        assert (In (r, c) (positions (sh_height sh) (sh_width sh))) as Hin by (eapply nth_error_In; eauto).
+        pose proof (cell_in_bounds _ Hin) as Hb. unfold cell in *. cbn [fst snd] in *.
+        destruct (Nat.leb_spec (length data) (offset sh r c)); [lia|].
+        f_equal. apply IH. lia.
+      + apply nth_error_None in E. now rewrite skipn_all2.
+  Qed.
+
+  Theorem mut_offsets_spec :
+    mut_offsets sh (length data) = map cell (positions (sh_height sh) (sh_width sh)).
+  Proof. unfold mut_offsets. now rewrite mut_offsets_from_spec by lia. Qed.
+
+  Lemma positions_NoDup h w' : NoDup (positions h w').
+  Proof.
+    apply NoDup_nth_error. intros i j Hi E. rewrite positions_length in Hi.
+    rewrite !positions_nth in E.
+    destruct (Nat.eqb_spec w' 0) as [->|Hw]; [lia|].
+    assert (i / w' < h) as Hq by (apply div_small_iff; lia).
+    apply Nat.ltb_lt in Hq. rewrite Hq in E.
+    destruct (j / w' <? h); [|discriminate]. injection E as E1 E2.
+    pose proof (Nat.mul_div_le i w' Hw). pose proof (Nat.mul_div_le j w' Hw).
+    rewrite E1 in *. nia.
+  Qed.
+
+  Lemma cells_NoDup : NoDup (map cell (positions (sh_height sh) (sh_width sh))).
+  Proof.
+    apply NoDup_map_in; [|apply positions_NoDup].
+    intros p q Hp Hq E. apply in_positions in Hp as [? ?], Hq as [? ?].
+    destruct (rep_good _ _ _ _ Hrep) as [_ Hinj]. unfold cell in E.
+    destruct (Hinj (fst p) (snd p) (fst q) (snd q)) as [? ?]; auto.
+    destruct p, q; cbn in *; congruence.
+  Qed.
+
+  (* no two references alias, every reference is inside the buffer *)
+  Theorem mut_offsets_safe :
+    NoDup (mut_offsets sh (length data)) /\
+    Forall (fun o => o < length data) (mut_offsets sh (length data)) /\
+    length (mut_offsets sh (length data)) = sh_height sh * sh_width sh.
+  Proof.
+    rewrite mut_offsets_spec. split; [apply cells_NoDup|]. split.
+    - apply Forall_forall. intros o Ho. apply in_map_iff in Ho as (p & <- & Hp).
+      now apply cell_in_bounds.
+    - now rewrite map_length, positions_length.
+  Qed.
+
+  (* get: the matrix element at the window's coordinates, absent outside the window *)
+  Theorem get_spec r c :
+    get sh data r c =
+    if (r <? w_h w) && (c <? w_w w) then nth_error data (root_index W (win_coord w r c)) else None.
+  Proof.
+    unfold get. pose proof Hrep as (Hh & Hw & _). rewrite Hh, Hw.
+    destruct (Nat.leb_spec (w_h w) r); destruct (Nat.ltb_spec r (w_h w)); try lia; cbn [orb andb];
+      [reflexivity|].
+    destruct (Nat.leb_spec (w_w w) c); destruct (Nat.ltb_spec c (w_w w)); try lia; [reflexivity|].
+    destruct (rep_offset _ _ _ _ r c Hrep) as (-> & _); auto.
+  Qed.
+
+  Theorem get_in_window r c : r < w_h w -> c < w_w w -> exists x, get sh data r c = Some x.
+  Proof.
+    intros Hr Hc. rewrite get_spec.
+    destruct (Nat.ltb_spec r (w_h w)); destruct (Nat.ltb_spec c (w_w w)); try lia. cbn [andb].
+    destruct (rep_offset _ _ _ _ r c Hrep Hr Hc) as (_ & Hf & Hs).
+    pose proof (root_index_lt H W _ Hf Hs).
+    destruct (nth_error data (root_index W (win_coord w r c))) eqn:E; [eauto|].
+    apply nth_error_None in E. lia.
+  Qed.
+
+  (* ---------- mutation: fill / fill_with / clear ---------- *)
+  Lemma set_nth_spec : forall (l : list A) k x, k < length l ->
+    exists l', set_nth l k x = Some l' /\ length l' = length l /\
+               nth_error l' k = Some x /\ (forall j, j <> k -> nth_error l' j = nth_error l j).
+  Proof.
+    induction l as [|a l IH]; intros k x Hk; cbn in Hk; [lia|].
+    destruct k as [|k].
+    - exists (x :: l). cbn. repeat split; auto. intros [|j] Hj; [lia|reflexivity].
+    - destruct (IH k x ltac:(lia)) as (l' & E & Hl & Hn & Ho).
+      exists (a :: l'). cbn. rewrite E. cbn. repeat split; auto.
+      intros [|j] Hj; [reflexivity|]. cbn. apply Ho. lia.
+  Qed.
+
+  Lemma upd_fold (f : nat -> nat -> A -> A) : forall ps d,
+    NoDup (map cell ps) -> (forall p, In p ps -> cell p < length d) ->
+    exists d', fold_left (upd_step sh f) ps (Some d) = Some d' /\ length d' = length d /\
+      (forall p, In p ps -> nth_error d' (cell p) = option_map (f (fst p) (snd p)) (nth_error d (cell p))) /\
+      (forall k, ~ In k (map cell ps) -> nth_error d' k = nth_error d k).
+  Proof.
+    induction ps as [|p ps IH]; intros d Hnd Hb.
+    - exists d. cbn. repeat split; auto. intros p [].
+    - cbn [fold_left upd_step]. destruct p as [r c].
+      pose proof (Hb (r, c) (or_introl eq_refl)) as Hbp. unfold cell in Hbp; cbn [fst snd] in Hbp.
+      destruct (nth_error d (offset sh r c)) as [old|] eqn:Eold;
+        [|apply nth_error_None in Eold; lia].
+      destruct (set_nth_spec d (offset sh r c) (f r c old) Hbp) as (d1 & E1 & Hl1 & Hn1 & Ho1).
+      rewrite E1. inversion Hnd as [|? ? Hnotin Hnd']; subst.
+      destruct (IH d1 Hnd') as (d' & E & Hl & Hin & Hout).
+      { intros q Hq. rewrite Hl1. apply Hb. now right. }
+      exists d'. split; [exact E|]. split; [lia|]. split.
+      + intros q [<-|Hq].
+        * cbn [fst snd]. rewrite Hout by exact Hnotin. unfold cell; cbn [fst snd].
+          rewrite Hn1, Eold. reflexivity.
+        * rewrite (Hin q Hq). f_equal. apply Ho1.
+          intros Eq. apply Hnotin. change (cell (r, c)) with (offset sh r c). rewrite <- Eq.
+          now apply in_map.
+      + intros k Hk. cbn [map] in Hk. rewrite Hout by (intros Hk'; apply Hk; now right). apply Ho1.
+        intros ->. apply Hk. now left.
+  Qed.
+
+  (* fill_with / fill / clear never panic, rewrite exactly the window's cells (each once)
+     and leave every other element of the backing vector untouched *)
+  Theorem fill_with_spec (f : nat -> nat -> A -> A) :
+    exists d', fill_with sh data f = Some d' /\ length d' = length data /\
+      (forall r c, r < sh_height sh -> c < sh_width sh ->
+         nth_error d' (offset sh r c) = option_map (f r c) (nth_error data (offset sh r c))) /\
+      (forall k, (forall r c, r < sh_height sh -> c < sh_width sh -> offset sh r c <> k) ->
+         nth_error d' k = nth_error data k).
+  Proof.
+    unfold fill_with.
+    destruct (upd_fold f (positions (sh_height sh) (sh_width sh)) data cells_NoDup cell_in_bounds)
+      as (d' & E & Hl & Hin & Hout).
+    exists d'. repeat split; auto.
+    - intros r c Hr Hc. apply (Hin (r, c)).
+      unfold positions. apply in_flat_map. exists r. split; [apply in_seq; lia|].
+      apply in_map. apply in_seq. lia.
+    - intros k Hk. apply Hout. intros Hin'. apply in_map_iff in Hin' as (p & <- & Hp).
+      apply in_positions in Hp as [? ?]. eapply Hk; eauto.
+  Qed.
 End WithData.
